@@ -6,7 +6,8 @@ catalog/data commit; (R2) no blocking (non-async) lock guard is alive across an 
 Does not decide: serializability of data operations (a history property)."""
 import re
 
-from tmpl import site, start_sites, done_sites, suffix, flows_from, pl_fields
+from tmpl import site, start_sites, done_sites, suffix, flows_from, pl_fields, origin_locals, local_defs
+from mir import operand_places
 
 SEC = 'storage::secondary::'
 DURABLE = 'VersionManager::commit_changes'
@@ -148,6 +149,36 @@ def run(ctx):
                    f'or both by one async lock ({sorted(ddl)}); not so at {bad}', [site(b, x) for x in (bad or B)],
                    what='CREATE TABLE allocates the table id before its record is appended: concurrent creates can log in a '
                         'different order than their ids; after reopen row-sets show up under the wrong table')
+
+    R5 = 'C10-R5'
+    ctx.rule(R5, 'no lost update in the in-memory engine: what InMemoryTransaction::commit hands to the table under the write lock are its '
+                 'buffered writes (buffer, delete_buffer), never a value built from the snapshot it took at start (snapshot, deleted_rows): '
+                 'installing "my start snapshot plus my writes" silently drops every commit that happened in between')
+    MC = '<storage::memory::transaction::InMemoryTransaction as storage::Transaction>::commit::{closure#0}'
+    mb = prog.body(MC)
+    if ctx.anchor(R5, MC, mb is not None):
+        ctx.functions_analysed.add(mb.name)
+        muts = [c for c in mb.calls if re.search(r'storage::memory::table::InMemoryTableInner::', c.fn or '')]
+        if ctx.anchor(R5, 'memory commit: calls on InMemoryTableInner', muts):
+            def start_state(l):
+                hit = set()
+                for x in origin_locals(mb, l, depth=12):
+                    for bb, kind, payload in local_defs(mb, x):
+                        if kind == 'assign':
+                            hit |= {f.rsplit('::', 1)[-1] for pl in operand_places(payload) for f in pl_fields(pl)
+                                    if f in ('storage::memory::transaction::InMemoryTransaction::snapshot',
+                                             'storage::memory::transaction::InMemoryTransaction::deleted_rows')}
+                return hit
+            for c in muts:
+                bad = set()
+                for a in c.args[1:]:
+                    if a['k'] != 'const':
+                        bad |= start_state(a['pl']['l'])
+                ctx.ob(R5, f'memory-commit·{c.fn.rsplit("::", 1)[-1]}·writes-only-its-buffers', not bad,
+                       f'{c.fn} at block {c.bb}: arguments derive from the start snapshot fields {sorted(bad)}' if bad else
+                       f'{c.fn} at block {c.bb}: arguments come from the transaction\'s buffers', [site(mb, c.bb)],
+                       what='InMemoryTransaction::commit writes back its start snapshot: of two overlapping write transactions on one table '
+                            'the later commit erases the earlier one (an acknowledged INSERT loses its rows, a DELETE is undone)')
 
 
 def guards_across_yield(prog):
